@@ -16,9 +16,11 @@ import (
 	"math/big"
 	"math/rand"
 	"os"
+	"runtime"
 	"sort"
 	"strconv"
 	"strings"
+	"sync"
 
 	"github.com/ElrondNetwork/elrond-go/core"
 	"github.com/ElrondNetwork/elrond-go/crypto"
@@ -57,13 +59,12 @@ type group struct {
 	n        int
 	sks      []crypto.PrivateKey
 	pubKeys  []string
-	verifier *headerCheck.HeaderSigVerifier
-	fallback bool                         // answer of the fallback validator stub for the current case
-	msg      map[string][]byte            // header kind -> signed message (hash of the header without signatures)
-	shares   map[string][][]byte          // message key -> share per member
-	aggCache map[string][]byte            // (message key, signer set) -> aggregated signature
-	aggr     crypto.MultiSigner           // aggregator
-	signers  map[int]crypto.MultiSigner   // member -> multisigner holding its private key
+	verifier map[bool]*headerCheck.HeaderSigVerifier // fallback validator stub answer -> verifier
+	msg      map[string][]byte                       // header kind -> signed message (hash of the header without signatures)
+	shares   map[string][][]byte                     // message key -> share per member
+	aggCache map[string][]byte                       // (message key, signer set) -> aggregated signature
+	aggr     crypto.MultiSigner                      // aggregator
+	signers  map[int]crypto.MultiSigner              // member -> multisigner holding its private key
 }
 
 var groups = map[int]*group{}
@@ -93,23 +94,27 @@ func newGroup(n int) *group {
 			return append([]string(nil), g.pubKeys...), nil
 		},
 	}
-	fb := &testscommon.FallBackHeaderValidatorStub{
-		ShouldApplyFallbackValidationCalled: func(_ data.HeaderHandler) bool { return g.fallback },
+	g.verifier = map[bool]*headerCheck.HeaderSigVerifier{}
+	for _, fallback := range []bool{false, true} {
+		answer := fallback
+		fb := &testscommon.FallBackHeaderValidatorStub{
+			ShouldApplyFallbackValidationCalled: func(_ data.HeaderHandler) bool { return answer },
+		}
+		// the verifier's own multisigner instance: only Create(pubKeys, 0) is called on it
+		vms, err := multisig.NewBLSMultisig(llSigner, g.pubKeys[:1], g.sks[0], keyGen, 0)
+		must(err)
+		v, err := headerCheck.NewHeaderSigVerifier(&headerCheck.ArgsHeaderSigVerifier{
+			Marshalizer:             marsh,
+			Hasher:                  hasher,
+			NodesCoordinator:        nc,
+			MultiSigVerifier:        vms,
+			SingleSigVerifier:       &mclsinglesig.BlsSingleSigner{},
+			KeyGen:                  keyGen,
+			FallbackHeaderValidator: fb,
+		})
+		must(err)
+		g.verifier[answer] = v
 	}
-	// the verifier's own multisigner instance: only Create(pubKeys, 0) is called on it
-	vms, err := multisig.NewBLSMultisig(llSigner, g.pubKeys[:1], g.sks[0], keyGen, 0)
-	must(err)
-	v, err := headerCheck.NewHeaderSigVerifier(&headerCheck.ArgsHeaderSigVerifier{
-		Marshalizer:             marsh,
-		Hasher:                  hasher,
-		NodesCoordinator:        nc,
-		MultiSigVerifier:        vms,
-		SingleSigVerifier:       &mclsinglesig.BlsSingleSigner{},
-		KeyGen:                  keyGen,
-		FallbackHeaderValidator: fb,
-	})
-	must(err)
-	g.verifier = v
 	return g
 }
 
@@ -215,15 +220,30 @@ func classify(err error) string {
 	return "sigInvalid"
 }
 
-// verify runs the real VerifySignature on a header of the given kind
-func (g *group) verify(kind string, bm []byte, fb bool, sg, fg []int) (string, error) {
+// build makes the header of a case (sequential: uses the signature caches)
+func (g *group) build(kind string, bm []byte, sg, fg []int) data.HeaderHandler {
 	h := newHeader(kind)
 	h.SetPubKeysBitmap(bm)
 	h.SetSignature(g.headerSignature(kind, sg, fg))
 	h.SetLeaderSignature([]byte("leader signature"))
-	g.fallback = fb
-	err := g.verifier.VerifySignature(h)
+	return h
+}
+
+// verify runs the real VerifySignature (safe to call concurrently)
+func (g *group) verify(h data.HeaderHandler, fb bool) (string, error) {
+	err := g.verifier[fb].VerifySignature(h)
 	return classify(err), err
+}
+
+func workers() int {
+	w, _ := strconv.Atoi(os.Getenv("VERIF_WORKERS"))
+	if w <= 0 {
+		w = runtime.NumCPU()
+	}
+	if w > 8 {
+		w = 8
+	}
+	return w
 }
 
 func toBytes(a []int) []byte {
@@ -232,13 +252,6 @@ func toBytes(a []int) []byte {
 		b[i] = byte(x)
 	}
 	return b
-}
-
-func fbTag(fb bool) string {
-	if fb {
-		return "/fallback"
-	}
-	return ""
 }
 
 func replay(path string) {
@@ -250,26 +263,59 @@ func replay(path string) {
 	var cases, accepted, cryptoReached, accPadding, metaRuns int
 	byClass := map[string]int{}
 	samples := 0
+	type job struct {
+		st   vtrace.Step
+		g    *group
+		kind string
+		h    data.HeaderHandler
+		fb   bool
+		got  string
+		err  error
+	}
+	var jobs []*job
 	for idx, b := range lines {
 		if len(b) == 0 {
 			continue
 		}
 		st := b[len(b)-1]
-		n := vtrace.Int(st.In["n"])
-		bm := toBytes(vtrace.Ints(st.In["bm"]))
-		fb := st.In["fb"].(bool)
-		sg := vtrace.SortedInts(vtrace.Ints(st.In["sg"]))
-		fg := vtrace.SortedInts(vtrace.Ints(st.In["fg"]))
-		quorum := st.Out["quorum"].(bool)
-		cls := vtrace.Str(st.Out["cls"])
-		g := getGroup(n)
+		g := getGroup(vtrace.Int(st.In["n"]))
 		kinds := []string{"shard"}
 		if idx%16 == 3 { // the same verifier serves metablocks: run a sample of the cases on a MetaBlock too
 			kinds = append(kinds, "meta")
 			metaRuns++
 		}
 		for _, kind := range kinds {
-			got, rerr := g.verify(kind, bm, fb, sg, fg)
+			jobs = append(jobs, &job{st: st, g: g, kind: kind, fb: st.In["fb"].(bool),
+				h: g.build(kind, toBytes(vtrace.Ints(st.In["bm"])), vtrace.SortedInts(vtrace.Ints(st.In["sg"])),
+					vtrace.SortedInts(vtrace.Ints(st.In["fg"])))})
+		}
+	}
+	// the real verifier, concurrently (every call builds its own multisigner through Create)
+	var wg sync.WaitGroup
+	ch := make(chan *job, 1024)
+	for w := 0; w < workers(); w++ {
+		wg.Add(1)
+		go func() {
+			defer wg.Done()
+			for j := range ch {
+				j.got, j.err = j.g.verify(j.h, j.fb)
+			}
+		}()
+	}
+	for _, j := range jobs {
+		ch <- j
+	}
+	close(ch)
+	wg.Wait()
+	for _, j := range jobs {
+		st, kind, got, rerr, fb := j.st, j.kind, j.got, j.err, j.fb
+		n := vtrace.Int(st.In["n"])
+		bm := toBytes(vtrace.Ints(st.In["bm"]))
+		sg := vtrace.SortedInts(vtrace.Ints(st.In["sg"]))
+		fg := vtrace.SortedInts(vtrace.Ints(st.In["fg"]))
+		quorum := st.Out["quorum"].(bool)
+		cls := vtrace.Str(st.Out["cls"])
+		{
 			cases++
 			byClass[got]++
 			if got == "ok" || got == "sigInvalid" {
@@ -286,7 +332,7 @@ func replay(path string) {
 				"header": kind, "real_result": got, "real_error": fmt.Sprint(rerr), "spec": st.Out}
 			// the property: accepted only with a quorum of real contributors including the leader
 			if got == "ok" && !quorum {
-				sig := "C17/accepted-without-quorum/" + cls + fbTag(fb)
+				sig := "C17/accepted-without-quorum/" + cls
 				vioCount[sig]++
 				if vioCount[sig] == 1 {
 					vtrace.Violation(prop, sig, fmt.Sprintf(
@@ -391,7 +437,7 @@ func record(seed int64, count int, out string) {
 			kind = "meta"
 		}
 		g := getGroup(n)
-		got, _ := g.verify(kind, bm, fb, sg, fg)
+		got, _ := g.verify(g.build(kind, bm, sg, fg), fb)
 		ibm := make([]int, len(bm))
 		for i := range bm {
 			ibm[i] = int(bm[i])
